@@ -44,6 +44,13 @@ func XText(r *core.Rng, n int) string {
 			b[i] = xmlSafe[r.Intn(len(xmlSafe))]
 		}
 	}
+	if n >= 3 && r.Chance(1, 8) {
+		// one kind of quote character inside the value (an apostrophe, or inches)
+		qc := byte(r.Pick('\'', '"'))
+		for k := r.Range(1, 2); k > 0; k-- {
+			b[r.Range(1, n-2)] = qc
+		}
+	}
 	if n >= 8 && r.Chance(1, 6) {
 		// non-ASCII text, among it characters that Unicode calls spaces but XML does not (they are
 		// part of the value wherever they stand); the byte length stays n
@@ -451,7 +458,11 @@ func randUnknown(r *core.Rng, q string) unknownProp {
 		return unknownProp{text: fmt.Sprintf("<%s><rdf:%s>%s</rdf:%s></%s>", prop, cont, strings.Repeat(item, r.Range(1, 3)), cont, prop)}
 	}
 	if r.Bool() {
-		return unknownProp{attr: true, text: fmt.Sprintf("%s:%s=%s%s%s", ns, name, q, val, q)}
+		aq := q
+		if strings.Contains(val, q) {
+			aq = map[string]string{"'": "\"", "\"": "'"}[q]
+		}
+		return unknownProp{attr: true, text: fmt.Sprintf("%s:%s=%s%s%s", ns, name, aq, val, aq)}
 	}
 	switch r.Intn(3) {
 	case 0:
@@ -469,7 +480,7 @@ func (rec *XMPRec) Serialise(r *core.Rng, st XMPStyle, forceForm int) []byte {
 	q := string(st.Quote)
 	var sb strings.Builder
 	sb.WriteString(st.Leading)
-	sb.WriteString("<x:xmpmeta xmlns:x=" + q + "adobe:ns:meta/" + q + " x:xmptk=" + q + "XMP Core 5.6.0" + q + ">" + st.NL)
+	sb.WriteString("<x:xmpmeta" + st.WS + "xmlns:x=" + q + "adobe:ns:meta/" + q + st.WS + "x:xmptk=" + q + "XMP Core 5.6.0" + q + ">" + st.NL)
 	sb.WriteString(st.Indent + "<rdf:RDF xmlns:rdf=" + q + "http://www.w3.org/1999/02/22-rdf-syntax-ns#" + q + ">" + st.NL)
 	order := r.Perm(len(rec.Props))
 	groups := [][]int{order}
@@ -490,7 +501,12 @@ func (rec *XMPRec) Serialise(r *core.Rng, st XMPStyle, forceForm int) []byte {
 				}
 			}
 			if !elem {
-				attrs = append(attrs, fmt.Sprintf("%s:%s=%s%s%s", p.NS, p.Name, q, p.Values[0], q))
+				// a value may contain the quote character that does not delimit it
+				aq := q
+				if strings.Contains(p.Values[0], q) {
+					aq = map[string]string{"'": "\"", "\"": "'"}[q]
+				}
+				attrs = append(attrs, fmt.Sprintf("%s:%s=%s%s%s", p.NS, p.Name, aq, p.Values[0], aq))
 				continue
 			}
 			switch p.Kind {
